@@ -2454,7 +2454,11 @@ Expr={expr}"""
         if random_state is None:
             random_state = np.random.RandomState()
 
-        state_data = random_state_data(self.npartitions, random_state)
+        # Own the data: the read-only views that ``random_state_data`` returns
+        # are tokenized differently from the arrays that pickle turns them into
+        state_data = [
+            state.copy() for state in random_state_data(self.npartitions, random_state)
+        ]
         return new_collection(
             expr.Sample(self, state_data=state_data, frac=frac, replace=replace)
         )
